@@ -42,6 +42,7 @@ W0 = [0, 0, [], 1]                 # commit without change = rollback path (_end
 W1 = [0, 0, [[0, 2, 1]], 1]
 W1b = [0, 0, [[0, 3, 2]], 1]
 WR = [0, 0, [[0, 2, 7]], 0]        # rollback
+WX = [0, 0, [[0, 2, 8]], 2]        # exception inside the with block: must roll back and wake the next writer
 WREPL = [0, 1, [[0, 0, 5]], 1]     # replacement, sets a serial
 R = [1, None]
 RID = [1, 0, 2]
@@ -117,7 +118,7 @@ def gen_progs(rng, nthreads):
             for _ in range(rng.choice([0, 1, 1, 2, 3])):
                 k = rng.choice([0, 1, 2, 2, 3])
                 edits.append([1, k] if rng.random() < 0.25 else [0, k, rng.randrange(6)])
-            progs.append([0, int(rng.random() < 0.15), edits, int(rng.random() < 0.8)])
+            progs.append([0, int(rng.random() < 0.15), edits, rng.choice([1, 1, 1, 1, 1, 0, 2])])
         elif r < 0.85:
             x = rng.random()
             progs.append([1, None] if x < 0.6 else [1, 0, rng.randint(1, 4)] if x < 0.8 else [1, 1, rng.randint(0, 5)])
@@ -128,7 +129,7 @@ def gen_progs(rng, nthreads):
 
 def cases(ctx):
     rng = ctx.rng
-    configs = [[W1, W1b], [W1, WR], [W0, W0, W0], [W0, W0, R], [W0, WR, P1], [WREPL, W1]]
+    configs = [[W1, W1b], [W1, WR], [WX, W1], [W0, W0, W0], [W0, W0, R], [W0, WR, P1], [WREPL, W1]]
     if not ctx.quick:
         configs += [[W1, W0, R], [W1, W1b, WR], [W1, W0, RID], [W0, W0, W0, R], [W1, WR, PN, R]]
     total = 0
@@ -185,7 +186,7 @@ def ref_apply(history, prog):
         elif e[1] in cont:
             del cont[e[1]]
             changed = True
-    if commit and changed:
+    if commit == 1 and changed:
         history.append((history[-1][0] + 1, cont))
 
 
